@@ -248,6 +248,8 @@ func vf03GenServerName(t *rapid.T) (string, string) {
 		return "ipv6", "2001:db8::5"
 	case 3:
 		return "long", vfDNSNameOfLen(rapid.IntRange(100, 253).Draw(t, "sni_long"), 'w')
+	case 4:
+		return "boundary", vfDNSNameOfLen(rapid.SampledFrom([]int{1, 2, 63, 64, 250, 251, 252, 253}).Draw(t, "sni_boundary"), 'b')
 	default:
 		return "dns", vfGenDNSName(t, "sni")
 	}
@@ -277,6 +279,9 @@ func TestVerifC03ParrotMatchesSpec(t *testing.T) {
 	for _, p := range vfParrots {
 		for i := 0; i < k; i++ {
 			name := fmt.Sprintf("host%d.example.test", i)
+			if i == 0 {
+				name = vfDNSNameOfLen(253, 'm') // the longest legal host name: every length field of server_name at its maximum
+			}
 			cv := vf03CfgVers[(i*7)%len(vf03CfgVers)]
 			if i == 1 {
 				cv = vf03CfgVers[1+(len(p.Name)+i)%2] // Config.MaxVersion below TLS 1.2 in the quick tier too
